@@ -102,6 +102,11 @@ pub fn gen_plan(rng: &mut Rng, pool: &Pool) -> Plan {
     };
     let mut tasks = vec![];
     let mut total_calls = 0;
+    // threaded runs: sync-only tasks on their own parked OS threads, so that
+    // several sync calls are in flight on one Impl<T> at once
+    let sync_methods: Vec<u16> = pool.methods.iter().copied().filter(|m| !MODEL[*m as usize].is_async).collect();
+    let threaded_run = !sync_methods.is_empty() && n_tasks >= 2 && rng.chance(25);
+    let n_tasks = if threaded_run { n_tasks.min(3) } else { n_tasks };
     for _ in 0..n_tasks {
         let app = if pool.mock_handle {
             if rng.chance(850) {
@@ -115,7 +120,7 @@ pub fn gen_plan(rng: &mut Rng, pool: &Pool) -> Plan {
         let n_calls = rng.range(1, 5) as usize;
         let mut calls = vec![];
         for _ in 0..n_calls {
-            let method = *rng.pick(&pool.methods);
+            let method = if threaded_run { *rng.pick(&sync_methods) } else { *rng.pick(&pool.methods) };
             let m = &MODEL[method as usize];
             let mut vals = [0u64; 12];
             for v in vals.iter_mut() {
@@ -125,15 +130,16 @@ pub fn gen_plan(rng: &mut Rng, pool: &Pool) -> Plan {
             calls.push(CallPlan { method, vals, flavor });
         }
         total_calls += n_calls;
-        tasks.push(TaskPlan { app, calls });
+        tasks.push(TaskPlan { app, calls, threaded: threaded_run });
     }
     let n_dec = 96 + 48 * total_calls;
     let decisions = (0..n_dec).map(|_| rng.next_u64() as u32).collect();
-    Plan {
-        tasks,
-        cfg: gen_cfg(rng),
-        decisions,
+    let mut cfg = gen_cfg(rng);
+    if threaded_run {
+        // a sync call cannot be cancelled
+        cfg.p_cancel = 0;
     }
+    Plan { tasks, cfg, decisions }
 }
 
 #[derive(Default)]
@@ -166,6 +172,8 @@ pub struct Stats {
     pub moved_args_conserved: u64,
     pub lookups: u64,
     pub create_and_drop_calls: u64,
+    pub threaded_runs: u64,
+    pub sync_segments_interleaved: u64,
 }
 
 impl Stats {
@@ -204,10 +212,18 @@ impl Stats {
         self.moved_args_conserved += o.moved_args_conserved;
         self.lookups += o.lookups;
         self.create_and_drop_calls += o.create_and_drop_calls;
+        self.threaded_runs += o.threaded_runs;
+        self.sync_segments_interleaved += o.sync_segments_interleaved;
     }
 
     pub fn record(&mut self, plan: &Plan, r: &RunResult) {
         self.runs += 1;
+        if plan.tasks.iter().any(|t| t.threaded) {
+            self.threaded_runs += 1;
+            if r.max_in_flight >= 2 {
+                self.sync_segments_interleaved += 1;
+            }
+        }
         self.steps += r.steps as u64;
         self.tasks += plan.tasks.len() as u64;
         self.max_in_flight = self.max_in_flight.max(r.max_in_flight);
@@ -330,9 +346,7 @@ fn same_history(plan: &Plan, a: &RunResult, b: &RunResult) -> bool {
         if x == y {
             return true;
         }
-        if !mock {
-            return false;
-        }
+        let _ = mock;
         match (x, y) {
             (Ev::CallStart { task: t1, method: m1, n: n1, args: a1, flavor: f1, .. }, Ev::CallStart { task: t2, method: m2, n: n2, args: a2, flavor: f2, .. }) => {
                 t1 == t2 && m1 == m2 && n1 == n2 && a1 == a2 && f1 == f2
@@ -370,7 +384,9 @@ pub fn evaluate(plan: &Plan, apps: &Apps, pool: &Pool, twin: bool, stats: Option
             .iter()
             .map(|t| pool.alloc_oracle && t.app != 2 && t.calls.iter().all(|c| !MODEL[c.method as usize].dynamic))
             .collect();
-        let compare_recv = !plan.tasks.iter().any(|t| t.app == 2);
+        // receiver identity is checked inside each execution (O1); across two
+        // executions stack-local receivers (by-value deps) legitimately differ
+        let compare_recv = false;
         match oracle::compare_twin(&r, &r2, &static_task, compare_recv) {
             Twin::Same => {}
             Twin::Misaligned => twin_misaligned = true,
@@ -715,6 +731,8 @@ fn coverage_json(property: &str, pool: &Pool, s: &mut Stats, samples: Vec<Value>
         "original_functions_entered": s.functions_entered,
         "provider_lookups": s.lookups,
         "create_and_drop_calls": s.create_and_drop_calls,
+        "threaded_runs (sync tasks on parked OS threads)": s.threaded_runs,
+        "threaded_runs_with_two_or_more_sync_calls_in_flight": s.sync_segments_interleaved,
         "tasks": {"total": s.tasks, "completed": s.tasks_completed, "cancelled": s.tasks_cancelled, "panicked": s.tasks_panicked},
         "faults_fired": s.faults,
         "cancel_at_poll_histogram": s.cancel_at_poll_hist,
@@ -810,7 +828,7 @@ fn scripted_plan(method: u16, app: u8, cancel_after: Option<u32>, spurious: bool
     }
     let _ = (cancel_after, spurious);
     Plan {
-        tasks: vec![TaskPlan { app, calls: vec![CallPlan { method, vals, flavor: 0 }] }],
+        tasks: vec![TaskPlan { app, calls: vec![CallPlan { method, vals, flavor: 0 }], threaded: false }],
         cfg: RunCfg { max_leaf: 1, max_alloc: 1, leaf_panic_pm: 0, p_deliver: 1000, p_cancel: 0, p_spurious: 0, fault_steps: 0 },
         decisions: vec![max_leaf_mode; 256],
     }
